@@ -7,9 +7,9 @@ ROOT = os.path.dirname(os.path.dirname(os.path.abspath(__file__)))
 PROPS = os.path.join(ROOT, 'lean', 'ChessVerif', 'Props')
 
 META = {
- 'C01': dict(files=['C01', 'C01Struct', 'C01King', 'PinCheck'], partial="FIDE exactness of the generator is proved in stages; see Props/C01.lean for the full statement `C01_full` and the proved parts", rule="positions from corpus, weighted playouts and synthesized valid set-ups (POS); the 20480-triple legality query on a subsample (LEGAL)"),
+ 'C01': dict(files=['C01', 'C01Struct', 'C01King', 'C01NonKing', 'C01Ep', 'PinCheck'], partial="FIDE exactness of the generator is proved in stages; see Props/C01.lean for the full statement `C01_full` and the proved parts", rule="positions from corpus, weighted playouts and synthesized valid set-ups (POS); the 20480-triple legality query on a subsample (LEGAL)"),
  'C02': dict(files=['C02'], rule="every legal move of positions along playouts, make_move_new and make_move into three prefilled boards (MAKE)"),
- 'C03': dict(files=['C03'], rule="positions reached incrementally along playouts with interleaved null moves, compared field by field with the from-scratch spec computation and with the re-parse of their own FEN"),
+ 'C03': dict(files=['C03', 'C03Step'], rule="positions reached incrementally along playouts with interleaved null moves, compared field by field with the from-scratch spec computation and with the re-parse of their own FEN"),
  'C04': dict(files=['C04'], rule="positions with terminal ones over-represented (mates, stalemates, small endgames)"),
  'C05': dict(files=['C05'], rule="MAKE lines along 300-ply playouts and complete move trees; Valid / is_sane / monotone counts checked on every successor"),
  'C06': dict(files=['C06'], rule="POS (fen, reparse), FENP on the harness's standard FEN writer, BFEN on random builder states"),
